@@ -575,6 +575,9 @@ void Plan::ScheduleInitialEdges() {
     if (want == kWantToStart && edge->AllInputsReady()) {
       Pool* pool = edge->pool();
       if (pool->ShouldDelayEdge()) {
+        // Mark the edge as scheduled, as ScheduleWork() does, so that a later
+        // ScheduleWork() call (e.g. from DyndepsLoaded()) does not queue it twice.
+        it->second = kWantToFinish;
         pool->DelayEdge(edge);
         pools.insert(pool);
       } else {
